@@ -23,6 +23,14 @@ thread_local! {
         Default::default();
 }
 
+thread_local! {
+    /// Whether the module being written defines an item called `Option`, and the names of the
+    /// constants emitted so far for AsRef conflict notes (unique per file, not per type).
+    static MODULE_DEFINES_OPTION: std::cell::Cell<bool> = const { std::cell::Cell::new(false) };
+    static CONFLICT_NOTE_NAMES: std::cell::RefCell<std::collections::HashSet<String>> =
+        Default::default();
+}
+
 fn predefined_type_path(name: &str) -> String {
     if SHADOWED_PREDEFINED.with(|s| s.borrow().contains(name)) {
         format!("::core::primitive::{name}")
@@ -99,6 +107,13 @@ pub fn write_module(
         .map(|name| name.to_string())
         .collect();
     SHADOWED_PREDEFINED.with(|s| *s.borrow_mut() = shadowed);
+    MODULE_DEFINES_OPTION.with(|o| {
+        o.set(
+            module.ast.definitions.iter().any(|d| d.name.as_str() == "Option")
+                || module.ast.extern_types.iter().any(|(name, _)| name.as_str() == "Option"),
+        )
+    });
+    CONFLICT_NOTE_NAMES.with(|n| n.borrow_mut().clear());
 
     let mut definitions = module
         .definitions(semantic_state.type_registry())
@@ -245,10 +260,16 @@ fn build_type(
         }
     });
 
+    // an item of the module called `Option` would be meant by the bare name
+    let option = if MODULE_DEFINES_OPTION.with(|o| o.get()) {
+        quote! { ::std::option::Option }
+    } else {
+        quote! { Option }
+    };
     let singleton_impl = singleton.map(|address| {
         quote! {
             impl #name_ident {
-                #visibility unsafe fn get() -> Option<&'static mut Self> {
+                #visibility unsafe fn get() -> #option<&'static mut Self> {
                     unsafe {
                         let ptr: *mut Self = *(#address as *mut *mut Self);
                         ptr.as_mut()
@@ -348,7 +369,6 @@ fn build_type(
                     acc
                 });
 
-        let mut conflicting_impl_names = std::collections::HashSet::new();
         types_to_field_paths
             .iter()
             .map(|(type_, field_path)| {
@@ -395,7 +415,7 @@ fn build_type(
                     );
                     let mut unique_name = conflicting_impl_name.clone();
                     let mut repeat = 1;
-                    while !conflicting_impl_names.insert(unique_name.clone()) {
+                    while !CONFLICT_NOTE_NAMES.with(|n| n.borrow_mut().insert(unique_name.clone())) {
                         repeat += 1;
                         unique_name = format!("{conflicting_impl_name}_{repeat}");
                     }
